@@ -286,7 +286,11 @@ func (g *c09SrvGen) section() verifh.Section {
 		}
 		ops = append(ops, fmt.Sprintf("req m=%s p=%s n=%d", m, p, rep))
 	}
-	return verifh.Section{Cfg: fmt.Sprintf("kind=server mode=%d", mode), Ops: ops}
+	mw := 0
+	if r.Chance(1, 4) {
+		mw = 1 // native middlewares between the router and the route handler
+	}
+	return verifh.Section{Cfg: fmt.Sprintf("kind=server mode=%d mw=%d", mode, mw), Ops: ops}
 }
 
 func c09SrvGenAll(r *verifh.Rng) []verifh.Section {
@@ -331,7 +335,16 @@ func TestVerifC09Server(t *testing.T) {
 		build := func() {
 			if srv == nil {
 				var err error
-				srv, err = NewServer(RestConf{}, opts...)
+				conf := RestConf{}
+				if cfg.Int("mw", 0) == 1 {
+					// the synchronous, stateless native middlewares: the path variables must reach the
+					// route handler through the chain built by engine.bindRoute
+					conf.Middlewares = MiddlewaresConf{Trace: true, Log: true, MaxConns: true, Recover: true,
+						MaxBytes: true, Gunzip: true}
+					conf.MaxConns = 10000
+					conf.MaxBytes = 1 << 20
+				}
+				srv, err = NewServer(conf, opts...)
 				if err != nil {
 					panic(err)
 				}
